@@ -6,6 +6,7 @@ import numpy as np
 
 from .. import core
 from ..translate import nonlin as tr_nonlin
+from ..translate import dealias as tr_dealias
 
 ID = "C03"
 PROPS_FILE = "C03"
@@ -16,7 +17,7 @@ RULE = ("translator: every __call__ under exponax/nonlin_fun and the private non
         "in exact Gaussian-rational arithmetic on the same float coefficients), all retained modes compared and out-of-band output required to vanish; the dealiasing mask vs the rational cutoff "
         "K(N) for N = 3..200; witness: independent NumPy fine-grid (4N, no aliasing) evaluation of the documented operator. N ranges cover all residues mod 12. "
         "Non-trivial: states with content up to Nyquist; distinct by input hash.")
-TRUSTED_EXTRA = ["harness/translate/nonlin.py (values as polynomials in inverse transforms of masked spectra; base-class fft / ifft / dealias inlined)"]
+TRUSTED_EXTRA = ["harness/translate/nonlin.py (values as polynomials in inverse transforms of masked spectra; base-class fft / ifft / dealias inlined) and harness/translate/dealias.py (cutoff of the mask; floor of the exact product)"]
 ASSUMPTIONS = ["rfftn(irfftn U * irfftn V) = N^-D circular convolution (convolution theorem; proved per axis, iterated by the D-dim transform)",
                "polynomial terms of degree > 3 are not modelled",
                "translator contracts (properties of rfftn / irfftn, see harness/translate/nonlin.py): rfftn is linear, rfftn(1) = N^D at the mean mode, rfftn(irfftn(M x)) = M x, "
@@ -26,8 +27,17 @@ FRACS = {"2/3": (2, 3, 2 / 3), "1/2": (1, 2, 1 / 2)}
 
 def translate(ctx):
     """Gen/NonlinFuns.v: the nonlinear functions re-translated from the source (tied to Nonlin/Terms.v by Tie/NonlinTie.v and the
-    theorem C03_code_terms_are_model_terms); on failure the file is replaced by a stub, so that the proof cannot use a stale text"""
-    tr_nonlin.run()
+    theorem C03_code_terms_are_model_terms) and Gen/DealiasGen.v (the cutoff of the dealiasing mask, theorem
+    C03_code_cutoff_is_model_cutoff); on failure a file is replaced by a stub, so that the proof cannot use a stale text; both are
+    always attempted"""
+    errors = []
+    for name, tr in (("nonlin", tr_nonlin), ("dealias", tr_dealias)):
+        try:
+            tr.run()
+        except Exception as e:
+            errors.append(f"{name}: {type(e).__name__}: {e}")
+    if errors:
+        raise RuntimeError("; ".join(errors))
 
 
 def _ex():
